@@ -71,7 +71,7 @@ def check_program(L: harness.Loaded, prog: Dict[str, Any], part: Part) -> None:
             part.violation(f"C03/{tag}/re-encoding-differs", case, f"{pdu.hex()} -> {show(dec)} -> {pdu2.hex()}")
     # through the layer, for requests that start with a constant (needed for dispatch)
     if prog.get("kind", "REQUEST") == "REQUEST" and prog["params"] and prog["params"][0]["t"] == "CODED-CONST" and prog["tags"][0] == "prog" and \
-            prog["params"][0].get("byte") in (None, 0):
+            prog["params"][0].get("byte") in (None, 0) and "CNV" not in prog["tags"][1].split("+")[:1]:
         for values in prog["assign"][:1]:
             try:
                 pdu, _, e = L.interp.encode(prog["pid"], values)
